@@ -28,6 +28,8 @@ type c16RunPlan struct {
 	Tick      int    `json:"tick"`
 	// NilRunFn: setup returns normally but hands back a nil iteration function
 	NilRunFn bool `json:"nil_run_fn,omitempty"`
+	// PreCancel: the context is already cancelled when Do is called
+	PreCancel bool `json:"pre_cancel,omitempty"`
 }
 
 type c16Params struct {
@@ -90,6 +92,9 @@ func init() {
 					}
 					if r.IntN(12) == 0 {
 						rp.NilRunFn, rp.Mode = true, "users"
+					} else if k > 0 && r.IntN(6) == 0 {
+						// interrupted before it began: still a run of its own as far as the metrics go
+						rp.PreCancel, rp.Mode = true, "users"
 					} else if r.IntN(6) == 0 {
 						rp.SetupFail = true
 						rp.SetupKind = pick(r, engine.BFail, engine.BFailNow, engine.BError, engine.BRequire, engine.BPanicString, engine.BPanicError, engine.BNilMap, engine.BPanicInt, engine.BNilDeref)
@@ -156,6 +161,11 @@ func c16Runs(c *core.Case, o *core.Outcome) {
 				if rp.FailEvery == 3 || rp.FailEvery == 7 {
 					t.Scenario = "renamed-in-the-body"
 				}
+				if n%4 == 2 {
+					// a cleanup of the iteration that fails: whatever that means for the iteration's outcome, the
+					// result and the metric say the same
+					t.Cleanup(func() { t.Fail() })
+				}
 				if rp.Mode == "drops" && n == 1 {
 					<-gate
 				}
@@ -212,6 +222,9 @@ func c16Runs(c *core.Case, o *core.Outcome) {
 			pr = pre[ri]()
 		}
 		started, failedPlanned, l := runStarted[ri], runFailed[ri], runLog[ri]
+		if rp.PreCancel {
+			runEnd[ri]()
+		}
 		r := engine.Do(runCtx[ri], pr.r, pr.fr)
 		runEnd[ri]()
 		if r.NewErr != nil {
